@@ -456,7 +456,9 @@ def run(chk, repo):
     if len(vals) == 1:
         fac = [n for n in ast.walk(init) if isinstance(n, ast.Assign) and unparse(n.targets[0]) in vals]
         pw = [n for n in ast.walk(init) if isinstance(n, ast.Assign) and unparse(n.targets[0]) == "power"]
-        good = len(fac) == 1 and unparse(fac[0].value) == "Poly([0, 1]) ** (-power)" and len(pw) == 1 \
+        # x ** -power, written as a power of the monomial x or as the one-term polynomial {-power: 1}
+        fv_ = unparse(fac[0].value) if len(fac) == 1 else ""
+        good = fv_ in ("Poly([0, 1]) ** (-power)", "Poly({-power: 1})", "Poly({1: 1}) ** (-power)") and len(pw) == 1 \
             and unparse(pw[0].value).startswith("min(") and "self.denpoly.terms()" in unparse(pw[0].value)
         chk.decide(good, "C05.ops", W("LinearFilter.__init__"),
                    "factor = %s with %s" % (short(fac[0]) if fac else "?", short(pw[0]) if pw else "?"),
